@@ -205,6 +205,9 @@ impl<'a> VpSlice<'a> {
     { unimplemented!() }
     #[verifier::external_body]
     pub fn iter(self) -> (r: VpIter<&'a SyntaxNode>) ensures r.rest() == self@ { unimplemented!() }
+    #[verifier::external_body]
+    pub fn get(self, i: usize) -> (r: Option<&'a SyntaxNode>)
+        ensures i < self@.len() ==> r == Some(self@[i as int]), i >= self@.len() ==> r is None { unimplemented!() }
     /// `s[i]` (rule R6; panics unless i < len)
     #[verifier::external_body]
     pub fn vp_at(self, i: usize) -> (r: &'a SyntaxNode) requires i < self@.len() ensures r == self@[i as int] { unimplemented!() }
